@@ -6,6 +6,7 @@
    or one API call event.  A schedule is a list of thread ids: every list is an interleaving
    (ids of finished or unknown threads stutter).  Executable, total, no proofs in this file. *)
 From Coq Require Import List ZArith Bool.
+From Verif Require Export Lib.Interleave.   (* [exec step s l := fold_left step l s], [interleaving] *)
 Import ListNotations.
 Open Scope Z_scope.
 
@@ -104,8 +105,11 @@ Definition lim_step (dry : bool) (c : caps) (reqs : list req) (s : est) (i : nat
   | _, _ => s
   end.
 
-Definition exec (step : est -> nat -> est) (sched : list nat) (s : est) : est :=
-  fold_left step sched s.
+(* a thread is its id repeated once per atomic action it can take; [exec step s sched] runs a
+   schedule; since finished threads stutter, EVERY list of ids is a legal schedule, and the
+   interleavings of [threads n] are the schedules in which every thread runs to completion *)
+Definition thread_actions : nat := 4.
+Definition threads (n : nat) : list (list nat) := map (fun i => repeat i thread_actions) (seq 0 n).
 
 (* ---------- the granularity at which the harness can drive the real code ----------
    PodEvictor: a goroutine runs until it is parked inside the API call (2 atomic actions) and,
